@@ -348,6 +348,28 @@ def execute(ctx, spec, inp, ex, idx, tag=""):
             sched = list(mp.delivery)
     finally:
         impl.set_threads(16)
+    # --- the caller works on what the getters hand out (every array the public getters return is the caller's to use):
+    #     the catalog, live and reopened, must still hold the input afterwards
+    if (spec["dseed"] + idx) % 2 == 0:
+        for patch in cat.values():
+            for getter in ("load_data", "coords", "weights", "redshifts"):
+                try:
+                    val = getattr(patch, getter)
+                    val = val() if callable(val) else val
+                except Exception:  # noqa: BLE001 - a getter that refuses is not this check's subject
+                    continue
+                arr = val if isinstance(val, np.ndarray) else getattr(val, "data", None)   # AngularCoordinates.data
+                if isinstance(arr, np.ndarray) and arr.size and arr.flags.writeable:
+                    try:
+                        if arr.dtype.names:
+                            for nm in arr.dtype.names:
+                                arr[nm] = arr[nm] * 2.0 + 1.0
+                        else:
+                            arr *= 2.0
+                            arr += 1.0
+                        ctx.bump("returned_arrays_overwritten_by_caller")
+                    except Exception:  # noqa: BLE001
+                        pass
     # --- observe ---
     stored = impl.patch_records(cat)
     reopened = impl.patch_records(impl.Catalog(cache, max_workers=1))
